@@ -236,6 +236,27 @@ class Ctx:
         self.results.append(ob)
         return ob.status == "discharged"
 
+    def refute(self, name, goal, note=""):
+        """Negated twin (vacuity guard): this clause must NOT be provable.  Discharged iff the solver finds a model of
+        the path condition in which the goal fails."""
+        goal_t = z3.BoolVal(goal) if isinstance(goal, bool) else z3_bool(goal)
+        t0 = time.time()
+        s = z3.Solver()
+        s.set("timeout", SOLVER_TIMEOUT_MS)
+        for a in self.pc:
+            s.add(a)
+        s.add(z3.Not(goal_t))
+        r = s.check()
+        ms = (time.time() - t0) * 1000
+        self.solver_time += ms / 1000
+        status = "discharged" if r == z3.sat else ("failed" if r == z3.unsat else "undecided")
+        ob = Obligation(f"{self.unit}/{name}", status, ms, "z3", goal="twin must not be provable: " + goal_t.sexpr()[:300],
+                        path="".join(str(int(x)) for x in self.taken), note=note + (" reason=" + s.reason_unknown() if r == z3.unknown else ""),
+                        kind="twin")
+        ob.decisions = [int(x) for x in self.taken]
+        self.results.append(ob)
+        return status == "discharged"
+
     # -- ghost history ------------------------------------------------------------------
     def emit(self, ev):
         """Append an event (a Val term) to the ghost history."""
